@@ -278,6 +278,7 @@ BASE_POINT = {
     'mcmenu': 'full',     # D9c: full = claim, release, two other in-events, two out-events | bare = claim, release, one out-event
     'kind': 'component',  # D10
     'prefix': '',         # D11: '' | 'Other.Project'
+    'stem': 'M',          # D12: name of the Dezyne source file (= prefix of the shell's name): 'M' | a 52-character name
 }
 
 DIMS = {
@@ -299,6 +300,7 @@ DIMS = {
     'mcmenu': ['full', 'bare'],
     'kind': ['component', 'system'],
     'prefix': ['', 'Other.Project'],
+    'stem': ['M', 'VeryLongDezyneModelFileNameForTheHeatingSubsystemCtrl'],
 }
 
 PORT_NAMES = {'plain': (['p', 'p2', 'p3'], ['r', 'r2', 'r3'], ['inj', 'inj2', 'inj3']),
@@ -338,6 +340,12 @@ def full_menu():
              [['firstMeasurementValueInMilliKelvin', ['T1'], 'in'], ['secondMeasurementValueInMilliKelvin', ['T2'], 'in'],
               ['thirdMeasurementValueInMilliKelvin', ['T3'], 'in'], ['fourthMeasurementValueInMilliKelvin', ['T1'], 'in']]],
             ['OFour', 'out', ['void'], [['total', ['T1'], 'in'], ['tot', ['T2'], 'in'], ['al', ['T3'], 'in'], ['t', ['T1'], 'in']]],
+            # five, six and nine formals (anything laid out in rows of 4 or 5 shows here)
+            ['I5', 'in', ['void'], [['a', ['T1'], 'in'], ['b', ['T2'], 'in'], ['c', ['T3'], 'out'], ['d', ['T1'], 'inout'], ['e', ['T2'], 'in']]],
+            ['O5', 'out', ['void'], [['a', ['T1'], 'in'], ['b', ['T2'], 'in'], ['c', ['T3'], 'in'], ['d', ['T1'], 'in'], ['e', ['T2'], 'in']]],
+            ['O6', 'out', ['void'], [['a', ['T1'], 'in'], ['b', ['T2'], 'in'], ['c', ['T3'], 'in'], ['d', ['T1'], 'in'], ['e', ['T2'], 'in'], ['f', ['T3'], 'in']]],
+            ['I9', 'in', ['Res'], [['a', ['T1'], 'in'], ['b', ['T2'], 'out'], ['c', ['T3'], 'in'], ['d', ['T1'], 'inout'], ['e', ['T2'], 'in'],
+                                    ['f', ['T3'], 'in'], ['g', ['T1'], 'out'], ['h', ['T2'], 'in'], ['i', ['T3'], 'in']]],
             ['IRef', 'in', ['bool'], [['a', ['T4'], 'in'], ['b', ['T2'], 'out']]],
             ['ORef', 'out', ['void'], [['a', ['T4'], 'in'], ['b', ['T1'], 'in']]],
             ['O0', 'out', ['void'], []],
@@ -542,7 +550,7 @@ def build_model(pt):
     doc = list(externs)
     doc += nest(itf_ns, interfaces)
     doc += nest(ns, [comp])
-    model = {'doc': doc, 'encapsulee': ns + ['Comp'], 'file': 'some/dir/M.dzn'}
+    model = {'doc': doc, 'encapsulee': ns + ['Comp'], 'file': f'some/dir/{pt.get("stem", "M")}.dzn'}
     # configuration description (independent of dznpy types)
     prov = [p[0] for p in ports if p[2] == 'provides']
     req = [p[0] for p in ports if p[2] == 'requires' and not p[3]]
@@ -643,6 +651,7 @@ def lab_points(k):
                       {'mc': 'p1:0', 'nprov': 2},                                  # multi-client port named 'p2' next to 'p'
                       {'mc': 'p1:0', 'nprov': 3, 'nreq': 3, 'names': 'caps'},       # ... in the middle of three
                       {'nprov': 3, 'nreq': 3, 'share': 'aba'},                     # same interface on non-adjacent ports
+                      {'stem': DIMS['stem'][1], 'fac': 'import'},                  # long shell name, both origins
                       {'nprov': 3, 'nreq': 3, 'rsem': 'lastmts'}):
             pt = dict(base)
             pt.update(delta)
